@@ -156,7 +156,20 @@ func quiesceT(h *hlog, maxWait time.Duration, tw *timerWatch) bool {
 	return false
 }
 
+// scribble overwrites a batch the consumer owns and appends to it (within its capacity, if it has spare room).
+func scribble(b []int) {
+	for i := range b {
+		b[i] = -1000 - i
+	}
+	for len(b) < cap(b) { // in place: an append that fits does not reallocate
+		b = append(b, -7-len(b))
+	}
+	b = append(b, -99) // and one that does not fit
+}
+
 func runBatch(c *Case) *Obs {
+	var heldMu sync.Mutex
+	var held [][]int
 	h := &hlog{}
 	mode, _ := c.Cfg["mode"].(string)
 	size := 1
@@ -237,6 +250,11 @@ func runBatch(c *Case) *Obs {
 			wg.Add(1)
 			go func() {
 				defer wg.Done()
+				heldMu.Lock()
+				for _, hb := range held {
+					scribble(hb)
+				}
+				heldMu.Unlock()
 				b, err := out.Next(ctx)
 				switch {
 				case err == nil:
@@ -245,6 +263,13 @@ func runBatch(c *Case) *Obs {
 						cp[i] = x
 					}
 					h.add("ret-next", k, "batch", cp)
+					// the batch now belongs to the consumer: like a real one, it overwrites it and appends to it -
+					// now and again later, when the batcher has collected further items (a later batch must not
+					// share memory with this one)
+					scribble(b)
+					heldMu.Lock()
+					held = append(held, b)
+					heldMu.Unlock()
 				case err == stream.End:
 					h.add("ret-next", k, "end")
 				case isCtxErr(err):
